@@ -500,3 +500,9 @@ REQUIRED_THEOREMS = REQUIRED_THEOREMS + ['Cv.Rounding.mean_error', 'Cv.Rounding.
 _np = list(NOT_PROVED)
 _np[0] = 'floating-point rounding of variance / covariance: decided by the oracle (exact rational reference, condition-number-scaled bound); for both mean algorithms the rounding-error bounds ARE proved in the standard model (Props/Rounding: mean_error gamma_n, welfordMean_error ~ (n/2+6.5) u max|x|)'
 NOT_PROVED = [x for x in _np if x is not None]
+
+# --- deep theorems (Rounding2)
+PROOF_MODULES = PROOF_MODULES + ['Compute.Lemmas.StatRounding', 'Compute.Lemmas.WelfordRounding', 'Compute.Props.Rounding2']
+REQUIRED_THEOREMS = REQUIRED_THEOREMS + ['Cv.Rounding2.covariance_error', 'Cv.Rounding2.sampleCovariance_error', 'Cv.Rounding2.covariance_self_error', 'Cv.Rounding2.shiftedCo_eq', 'Cv.Rounding2.absComoment_shift', 'Cv.Rounding2.welfordM2_error', 'Cv.Rounding2.var_error', 'Cv.Rounding2.sampleVar_error', 'Cv.Rounding2.welford_mean_term_necessary']
+NOT_PROVED = [x for x in NOT_PROVED if not any(k in str(x) for k in ('floating-point rounding of variance / covariance',))]
+NOT_PROVED = NOT_PROVED + ["rounding of the one-pass and online covariance algorithms (oracle only); for the two-pass covariance/variance and for Welford's M2 / var / sample_var the bounds ARE proved in the standard model (Props/Rounding2): two-pass error = gamma_(n+5) x centred first-order scale (exactly shift-invariant) + second-order terms in the means; Welford's bound necessarily contains a mean term (welford_mean_term_necessary)"]
